@@ -22,13 +22,16 @@ def main():
     tier = "quick"
     if "--tier" in sys.argv:
         tier = sys.argv[sys.argv.index("--tier") + 1]
+    sid = prop
+    if "--id" in sys.argv:
+        sid = sys.argv[sys.argv.index("--id") + 1]
     seeded = os.path.join(src, "SEEDED")
     patch = os.path.join(seeded, "patch.diff")
     demos = [f for f in os.listdir(seeded) if f.endswith("_test.go") or f.endswith("_test.go.txt")]
     meta = dict(property=prop, source_worktree=src, ran_at=time.strftime("%Y-%m-%d %H:%M:%S"), steps=[])
     ok = True
     if "--skip-confirm" not in sys.argv:
-        wt = "/tmp/wt-verify-%s" % prop
+        wt = "/tmp/wt-verify-%s" % sid
         sh("git -C /repo worktree remove --force %s" % wt)
         rc, out = sh("git -C /repo worktree add -q --detach %s HEAD" % wt)
         try:
@@ -58,7 +61,7 @@ def main():
         finally:
             sh("git -C /repo worktree remove --force %s" % wt)
     meta["confirmed"] = bool(ok)
-    prev_path = os.path.join(VERIF, "seeded", prop, "meta.json")
+    prev_path = os.path.join(VERIF, "seeded", sid, "meta.json")
     prev = json.load(open(prev_path)) if os.path.exists(prev_path) else None
     if prev is not None:
         meta["history"] = prev.get("history", []) + [dict(ran_at=prev.get("ran_at"), check=prev.get("check"), note=prev.get("note", ""))]
@@ -77,7 +80,7 @@ def main():
     finally:
         sh("git -C /repo checkout -- . && git -C /repo clean -fdq")
     meta["detected"] = meta["check"]["exit"] == 1
-    dst = os.path.join(VERIF, "seeded", prop)
+    dst = os.path.join(VERIF, "seeded", sid)
     os.makedirs(dst, exist_ok=True)
     shutil.copyfile(patch, os.path.join(dst, "patch.diff"))
     for d in demos:
@@ -86,6 +89,6 @@ def main():
     if os.path.exists(os.path.join(seeded, "notes.md")):
         shutil.copyfile(os.path.join(seeded, "notes.md"), os.path.join(dst, "agent_notes.md"))
     json.dump(meta, open(os.path.join(dst, "meta.json"), "w"), indent=1)
-    print(prop, "confirmed=%s" % meta["confirmed"], "check exit=%s" % meta["check"]["exit"], meta["check"]["signatures"][:2])
+    print(sid, "confirmed=%s" % meta["confirmed"], "check exit=%s" % meta["check"]["exit"], meta["check"]["signatures"][:2])
 
 main()
